@@ -82,18 +82,29 @@ def main():
         meta["confirmed"] = bool(ok)
     finally:
         shutil.rmtree(root, ignore_errors=True)
+    dst = os.path.join(VERIF, "seeded", sid)
+    old = {}
+    if os.path.exists(os.path.join(dst, "meta.json")):
+        old = json.load(open(os.path.join(dst, "meta.json")))
+    if not ok and store and old.get("confirmed") and d0.returncode == 0 and d1.returncode == 0 and p.returncode == 0:
+        # a change confirmed earlier that no longer breaks anything on the current tree (a later fix: commit removed what it relied on)
+        old.setdefault("history", []).append({"at": meta["confirmed_at"], "base_commit": meta["base_commit"],
+                                              "note": "demo passes with the patch applied on this tree: neutralised", "caught_by": meta.get("caught_by")})
+        old["status"] = "neutralised"
+        json.dump(old, open(os.path.join(dst, "meta.json"), "w"), indent=1, sort_keys=True)
+        print("[%s] neutralised on the current tree (recorded in meta.json)" % sid)
+        return 0
     if ok and store:
-        dst = os.path.join(VERIF, "seeded", sid)
         os.makedirs(dst, exist_ok=True)
         for f in ("patch.diff", "demo.py", "notes.md"):
-            if os.path.exists(os.path.join(src, f)):
+            if os.path.exists(os.path.join(src, f)) and os.path.abspath(src) != os.path.abspath(dst):
                 shutil.copy(os.path.join(src, f), os.path.join(dst, f))
-        old = {}
-        if os.path.exists(os.path.join(dst, "meta.json")):
-            old = json.load(open(os.path.join(dst, "meta.json")))
-        for k in ("needs_to_manifest", "summary", "history"):
+        for k in ("needs_to_manifest", "summary", "history", "first_result"):
             if k in old:
                 meta[k] = old[k]
+        if old and "first_result" not in meta:
+            meta["first_result"] = {"at": old.get("confirmed_at"), "base_commit": old.get("base_commit"), "caught_by": old.get("caught_by")}
+        meta["status"] = "active"
         json.dump(meta, open(os.path.join(dst, "meta.json"), "w"), indent=1, sort_keys=True)
         print("[%s] stored in %s ; caught_by=%s" % (sid, dst, meta["caught_by"]))
     elif not ok:
